@@ -46,6 +46,7 @@ def small_binder_formulas():
 
 def run(chk):
     thorough = chk.tier == 'thorough'
+    chk.bounds['families added after seeded changes'] = 'EU / AW over every ordered pair of distinct conjunctions of literals; AG / EF (nested once) over conjunctions of literals; swapped two-variable duplicates; E-MIR pair obligation: arbitrary steady-state arguments first, the two realisable ones (real steady states / empty set) decide'
     chk.bounds.update({'E-MIR': 'model_check_formula_unsafe_ex and eval_node (steady-state argument = free symbolic set) executed from MIR, n=2, k<=2, all transition systems',
                        'E-UNI': 'model_check_formula_unsafe_ex vs model_check_formula_dirty on instances U2, C2, M2; for formulas outside the fragment the miter is restricted to colours without a steady state'})
     pairs = operand_pairs()
